@@ -78,6 +78,11 @@ def queries(tier):
             qs.append(Q('splitctx_%s_len%d' % (('ref', 'join')[mode], L), 'R', 'h_splitctx.c', {'LEN': L, 'MODE': mode}, L + 2,
                         'split_context on %d symbolic bytes, symbolic delimiter and max_splits vs reference bracket/quote scanner: ' % L + ('exact pieces / runtime_error iff unbalanced' if mode == 0 else 'phosg join inverts it when accepted'),
                         'len(s) == %d, all byte values, all delimiters, max_splits in [0,%d]' % (L, L + 1)))
+    # concrete-prefix cells of length 4: an opening quote followed by a backslash, then two symbolic bytes (escape handling inside quoted strings)
+    for q0, nm in ((34, 'dq'), (39, 'sq')):
+        qs.append(Q('splitctx_ref_len4_pfx_%s_bs' % nm, 'R', 'h_splitctx.c', {'LEN': 4, 'MODE': 0, 'PFX0': q0, 'PFX1': 92}, 6,
+                    'split_context on 4 bytes: quote %r, backslash, two symbolic bytes; symbolic delimiter and max_splits vs reference scanner' % chr(q0),
+                    'len(s) == 4, first two bytes fixed'))
     for L in ([0, 1, 2] if quick else [0, 1, 2, 3, 4]):
         qs.append(Q('splitargs_len%d' % L, 'R', 'h_splitargs.c', {'LEN': L}, L + 2,
                     'split_args on %d symbolic bytes vs reference shell-style tokenizer: exact arguments / runtime_error iff incomplete escape or open quote' % L, 'len(s) == %d, all byte values' % L, mem_gb={3: 9, 4: 13}.get(L, 6)))  # since the split_args fix d9bec56: len 3 needs > 6 GB, len 4 > 9 GB
